@@ -33,6 +33,7 @@ const EMPTY: Slot = Slot {
     live: false,
 };
 
+const TOMBSTONE: usize = usize::MAX;
 const TABLE_BITS: usize = 17;
 const TABLE_SIZE: usize = 1 << TABLE_BITS;
 
@@ -139,6 +140,15 @@ impl State {
                 self.used += 1;
                 return true;
             }
+            if s.addr == TOMBSTONE {
+                *s = slot;
+                return true;
+            }
+            if s.addr == slot.addr {
+                // the system handed the address out again (only possible without quarantine)
+                *s = slot;
+                return true;
+            }
             i = (i + 1) & (TABLE_SIZE - 1);
         }
     }
@@ -230,9 +240,11 @@ unsafe impl GlobalAlloc for SimAlloc {
                 let (base, total, size) = (s.base, s.total, s.size);
                 std::ptr::write_bytes(base as *mut u8, POISON_FREED, total);
                 if !quarantine {
-                    // keep the slot (dead) so that liveness queries stay exact-ish, really free
+                    // really free: the address may be handed out again (to anybody), so the slot
+                    // must not linger as "dead"
                     let align = s.align;
-                    s.base = 0;
+                    *s = EMPTY;
+                    s.addr = TOMBSTONE;
                     System.dealloc(base as *mut u8, Layout::from_size_align_unchecked(total, align));
                 }
                 st.live_blocks -= 1;
@@ -415,6 +427,10 @@ pub fn end_run() -> RunAllocReport {
         for i in 0..TABLE_SIZE {
             let s = &mut *st.table.add(i);
             if s.addr == 0 {
+                continue;
+            }
+            if s.addr == TOMBSTONE {
+                *s = EMPTY;
                 continue;
             }
             if !s.live && s.base != 0 {
